@@ -63,31 +63,93 @@ Definition close_events (s : st) : list event :=
 Definition async_history (c : cfg) (es : list expectation) (ms : list msg) : list event :=
   let '(s, o) := run_async c (init es) ms in o ++ close_events s.
 
-(* ---- sync mock: SendMessage returns (partition, offset, error) ---- *)
-Inductive sret := SOk (retp off : Z) (msgp : Z) | SErr (e : Z).  (* msgp: msg.Partition after the call *)
-Definition err_out_of_expectations : Z := -1.
+(* ---- sync mock ---- *)
+(* What one expectation does to one message (shared by SendMessage and the SendMessages loop):
+   a_err   None = produced, Some x = the call fails with x
+   a_rep   reporter calls
+   a_part  Some p when msg.Partition was assigned (the partitioner's choice; assigned before the checker runs)
+   a_off   Some o when msg.Offset was assigned
+   a_last  lastOffset afterwards *)
+Record applied := { a_err : option Z; a_rep : list report; a_part : option Z; a_off : option Z; a_last : Z }.
 
-Definition step_sync (s : st) (m : msg) : st * sret * list report :=
-  match exps s with
-  | [] => (s, SErr err_out_of_expectations, [RepNoExpectation])
-  | e :: es =>
-    match m_pres m with
-    | PErr x => ({| exps := es; last := last s |}, SErr x, [RepPartitioner])
-    | POk p =>
-      match e_chk e with
-      | CFail x => ({| exps := es; last := last s |}, SErr x, [RepChecker])
-      | _ =>
-        match e_res e with
-        | RSucc => ({| exps := es; last := last s + 1 |}, SOk 0 (last s + 1) p, [])
-        | RFail x => ({| exps := es; last := last s |}, SErr x, [])
-        end
+Definition apply1 (e : expectation) (lo : Z) (m : msg) : applied :=
+  match m_pres m with
+  | PErr x => {| a_err := Some x; a_rep := [RepPartitioner]; a_part := None; a_off := None; a_last := lo |}
+  | POk p =>
+    match e_chk e with
+    | CFail x => {| a_err := Some x; a_rep := [RepChecker]; a_part := Some p; a_off := None; a_last := lo |}
+    | _ =>
+      match e_res e with
+      | RSucc => {| a_err := None; a_rep := []; a_part := Some p; a_off := Some (lo + 1); a_last := lo + 1 |}
+      | RFail x => {| a_err := Some x; a_rep := []; a_part := Some p; a_off := None; a_last := lo |}
       end
     end
   end.
 
-Fixpoint run_sync (s : st) (ms : list msg) : st * list (sret * list report) :=
-  match ms with
-  | [] => (s, [])
-  | m :: r => let '(s1, o, rp) := step_sync s m in
-              let '(s2, os) := run_sync s1 r in (s2, (o, rp) :: os)
+(* fields of the caller's message written by the mock: (Partition, Offset); None = left as it was *)
+Definition touch := (option Z * option Z)%type.
+Definition untouched : touch := (None, None).
+Definition touch_of (a : applied) : touch := (a_part a, a_off a).
+
+(* SendMessage returns (partition, offset, error): the returned partition is the constant 0 on success *)
+Inductive sret := SOk (retp off : Z) | SErr (e : Z).
+Definition err_out_of_expectations : Z := -1.
+
+(* result of one call: return value, reporter calls, what happened to each message passed,
+   ids of the messages the partitioner was consulted for *)
+Record callres := { r_ret : sret; r_rep : list report; r_touch : list touch; r_asked : list Z }.
+
+Definition step_sync (s : st) (m : msg) : st * callres :=
+  match exps s with
+  | [] => (s, {| r_ret := SErr err_out_of_expectations; r_rep := [RepNoExpectation]; r_touch := [untouched]; r_asked := [] |})
+  | e :: es =>
+    let a := apply1 e (last s) m in
+    ({| exps := es; last := a_last a |},
+     {| r_ret := match a_err a with None => SOk 0 (a_last a) | Some x => SErr x end;
+        r_rep := a_rep a; r_touch := [touch_of a]; r_asked := [m_id m] |})
   end.
+
+(* the `for i, expectation := range expectations` loop of SendMessages: stops at the first failure *)
+Record batchres := { b_last : Z; b_err : option Z; b_rep : list report; b_touch : list touch; b_asked : list Z }.
+
+Fixpoint batch_loop (lo : Z) (es : list expectation) (ms : list msg) : batchres :=
+  match es, ms with
+  | e :: er, m :: mr =>
+    let a := apply1 e lo m in
+    match a_err a with
+    | Some x => {| b_last := a_last a; b_err := Some x; b_rep := a_rep a;
+                   b_touch := touch_of a :: map (fun _ => untouched) mr; b_asked := [m_id m] |}
+    | None => let r := batch_loop (a_last a) er mr in
+              {| b_last := b_last r; b_err := b_err r; b_rep := b_rep r;
+                 b_touch := touch_of a :: b_touch r; b_asked := m_id m :: b_asked r |}
+    end
+  | _, _ => {| b_last := lo; b_err := None; b_rep := []; b_touch := map (fun _ => untouched) ms; b_asked := [] |}
+  end.
+
+(* SendMessages returns only an error; SOk 0 0 stands for nil *)
+Definition step_batch (s : st) (ms : list msg) : st * callres :=
+  let n := length ms in
+  if (n <=? length (exps s))%nat then
+    let r := batch_loop (last s) (firstn n (exps s)) ms in
+    ({| exps := skipn n (exps s); last := b_last r |},
+     {| r_ret := match b_err r with None => SOk 0 0 | Some x => SErr x end;
+        r_rep := b_rep r; r_touch := b_touch r; r_asked := b_asked r |})
+  else
+    (s, {| r_ret := SErr err_out_of_expectations; r_rep := [RepInsufficient];
+           r_touch := map (fun _ => untouched) ms; r_asked := [] |}).
+
+Inductive call := CSend (m : msg) | CBatch (ms : list msg).
+
+Definition step_call (s : st) (c : call) : st * callres :=
+  match c with CSend m => step_sync s m | CBatch ms => step_batch s ms end.
+
+Fixpoint run_calls (s : st) (cs : list call) : st * list callres :=
+  match cs with
+  | [] => (s, [])
+  | c :: r => let '(s1, o) := step_call s c in
+              let '(s2, os) := run_calls s1 r in (s2, o :: os)
+  end.
+
+(* SyncProducer.Close *)
+Definition sync_close (s : st) : list report :=
+  match exps s with [] => [] | _ => [RepLeftOver (Z.of_nat (length (exps s)))] end.
